@@ -454,6 +454,15 @@ def dict_literal_after(fdef, target_pred):
     return None
 
 
+def all_literals(tree, kinds):
+    """every literal of the given ast kinds anywhere in the module, also when wrapped in a call
+    (`MappingProxyType({...})`, `frozenset([...])`, `dict({...})`)"""
+    return [n for n in ast.walk(tree) if isinstance(n, kinds)]
+
+
+SEQ_KEYS = {"twait", "nrep", "jump_input", "jump_target", "goto"}
+
+
 def default_sequencing(report):
     seq = parse("sequence.py")
     lines = []
@@ -461,8 +470,17 @@ def default_sequencing(report):
         f = find_func(seq, meth, "Sequence")
         d = dict_literal_after(f, lambda t: isinstance(t, ast.Subscript) and isinstance(t.value, ast.Attribute) and t.value.attr == "_sequencing") if f else None
         if d is None:
-            report.append(f"{nm}: default sequencing dict not found -> empty")
-            lines.append(f"def {nm} : List (String × Int) := []")
+            # a rewrite may build the default entry from a template defined elsewhere in the module: the one dict
+            # literal with exactly the five sequencing keys and integer values
+            cands = [n for n in all_literals(seq, ast.Dict)
+                     if all(isinstance(k, ast.Constant) for k in n.keys) and {k.value for k in n.keys} == SEQ_KEYS
+                     and all(isinstance(v, ast.Constant) and isinstance(v.value, int) for v in n.values)]
+            texts = {ast.dump(c) for c in cands}
+            if len(texts) == 1:
+                d = cands[0]
+                report.append(f"{nm}: default sequencing taken from the module's only template literal")
+        if d is None:
+            lines.append(keep_golden("K.lean", nm, report, "default sequencing dict not found"))
             continue
         items = ", ".join(f'("{k.value}", {v.value})' for k, v in zip(d.keys, d.values))
         lines.append(f"def {nm} : List (String × Int) := [{items}]")
@@ -474,19 +492,40 @@ def flag_tables(report):
     f = find_func(el, "addFlags", "Element")
     allowed_int, allowed_str = [], []
     alias_int, alias_str = [], []
-    for n in ast.walk(f):
+    for n in (ast.walk(f) if f else []):
         if isinstance(n, ast.Compare) and isinstance(n.ops[0], ast.NotIn) and isinstance(n.comparators[0], ast.List) and isinstance(n.left, ast.Name) and n.left.id == "i":
             for c in n.comparators[0].elts:
                 (allowed_str if isinstance(c.value, str) else allowed_int).append(c.value)
         if isinstance(n, ast.Assign) and isinstance(n.targets[0], ast.Name) and n.targets[0].id == "flag_aliases" and isinstance(n.value, ast.Dict):
             for k, v in zip(n.value.keys, n.value.values):
                 (alias_str if isinstance(k.value, str) else alias_int).append((k.value, v.value))
-    return [
-        "def flagAliasStr : List (String × Int) := [" + ", ".join(f'("{k}", {v})' for k, v in alias_str) + "]",
-        "def flagAliasInt : List (Int × Int) := [" + ", ".join(f"({k}, {v})" for k, v in alias_int) + "]",
-        "def flagAllowedInt : List Int := [" + ", ".join(str(x) for x in allowed_int) + "]",
-        "def flagAllowedStr : List String := [" + ", ".join(f'"{x}"' for x in allowed_str) + "]",
-    ]
+    if not (alias_int and alias_str):
+        # the alias table may have been hoisted out of the method: the one dict literal in the module whose keys
+        # include the five string aliases
+        cands = [n for n in all_literals(el, ast.Dict)
+                 if all(isinstance(k, ast.Constant) for k in n.keys) and {"", "H", "L", "T", "P"} <= {k.value for k in n.keys}
+                 and all(isinstance(v, ast.Constant) and isinstance(v.value, int) for v in n.values)]
+        if len({ast.dump(c) for c in cands}) == 1:
+            alias_int, alias_str = [], []
+            for k, v in zip(cands[0].keys, cands[0].values):
+                (alias_str if isinstance(k.value, str) else alias_int).append((k.value, v.value))
+            report.append("flag aliases taken from the module's only alias literal")
+    if not (allowed_int and allowed_str):
+        cands = [n for n in all_literals(el, (ast.List, ast.Tuple, ast.Set))
+                 if n.elts and all(isinstance(c, ast.Constant) for c in n.elts) and {"", "H", "L", "T", "P"} <= {c.value for c in n.elts}]
+        if len({ast.dump(c) for c in cands}) == 1:
+            allowed_int, allowed_str = [], []
+            for c in cands[0].elts:
+                (allowed_str if isinstance(c.value, str) else allowed_int).append(c.value)
+            report.append("allowed flags taken from the module's only flag list literal")
+    out = []
+    for name, ok, text in (
+            ("flagAliasStr", alias_str, "def flagAliasStr : List (String × Int) := [" + ", ".join(f'("{k}", {v})' for k, v in alias_str) + "]"),
+            ("flagAliasInt", alias_int, "def flagAliasInt : List (Int × Int) := [" + ", ".join(f"({k}, {v})" for k, v in alias_int) + "]"),
+            ("flagAllowedInt", allowed_int, "def flagAllowedInt : List Int := [" + ", ".join(str(x) for x in allowed_int) + "]"),
+            ("flagAllowedStr", allowed_str, "def flagAllowedStr : List String := [" + ", ".join(f'"{x}"' for x in allowed_str) + "]")):
+        out.append(text if ok else keep_golden("K.lean", name, report, "flag table not found in element.py"))
+    return out
 
 
 def filter_kinds(report):
@@ -495,8 +534,7 @@ def filter_kinds(report):
     for n in ast.walk(f):
         if isinstance(n, ast.Compare) and isinstance(n.ops[0], ast.NotIn) and isinstance(n.left, ast.Name) and n.left.id == "kind":
             return ["def filterKinds : List String := [" + ", ".join(f'"{c.value}"' for c in n.comparators[0].elts) + "]"]
-    report.append("filterKinds: kind check not found in setChannelFilterCompensation -> every kind accepted")
-    return ["def filterKindsAny : Bool := true", 'def filterKinds : List String := []']
+    return [keep_golden("K.lean", "filterKinds", report, "kind check not found in setChannelFilterCompensation")]
 
 
 def lin_count(report):
